@@ -98,6 +98,13 @@ def table_traces(args):
                         for OUT in (0, 1, 2, 4):
                             T, direct, ge1 = pipeline(dassh, path, region,
                                                       dT.copy(), T_in, IN, OUT)
+                            # entry j on its own: the same table with the
+                            # rises beyond j left out
+                            own = np.array([
+                                pipeline(dassh, path, region,
+                                         dT[:, :j + 1].copy(), T_in, IN,
+                                         OUT)[0][:, j]
+                                for j in range(nt)]).T
                             nom = T_in + np.cumsum(dT, axis=1)
                             zero = T_in + np.cumsum(dT * direct, axis=1)
                             for a in range(dT.shape[0]):
@@ -107,6 +114,7 @@ def table_traces(args):
                                     'hot': [qt(v) for v in T[a]],
                                     'nom': [qt(v) for v in nom[a]],
                                     'zero': [qt(v) for v in zero[a]],
+                                    'own': [qt(v) for v in own[a]],
                                     'tol': 2, 'ptol': 40})
                 except SystemExit:
                     continue   # table rejected with an error message
